@@ -179,6 +179,8 @@ def run(prop, tier, seed):
         json.dump(ev, open(p, "w"), separators=(",", ":"))
         r = tlc_or_die("TraceJson", cfg="TraceJson_%s.cfg" % prop, env={"TRACE_FILE": p}, timeout=7200)
         c.add_tlc("TraceJson %s" % prop, r)
+        # design facts tying the schema's value names to the library's published wording (exceptions listed exactly)
+        c.add_tlc("MC_Internals: JSON value names = upper-cased descriptions up to the listed exceptions; display tables cover the standards' tables; lookup domain", tlc_or_die("MC_Internals", workers=1, timeout=600))
         if r.distinct != 2 * len(ev):
             raise MachineryError("TLC judged %d states for %d events" % (r.distinct, len(ev)))
         for l in r.lines:
